@@ -524,6 +524,7 @@ func TestVerifMatch(t *testing.T) {
 	}
 	n += vtinyCorpora(o, r)
 	n += vstrayTail(o)
+	n += vnearTies(o)
 	o.stat("match", map[string]interface{}{"match_cases": n})
 }
 
@@ -669,4 +670,58 @@ func vstrayTail(o *vout) int {
 		}
 	}
 	return n
+}
+
+// vnearTies: two user documents of n and n+1 distinct words, each planted with ONE word replaced: the
+// confidences 1-1/n and 1-1/(n+1) differ by about 1/n², and the less similar copy comes first in the
+// text — the result must still be ordered by confidence (C03), whatever the comparator does with
+// confidences that are "almost equal".
+func vnearTies(o *vout) int {
+	word := func(p string, i int) string {
+		return p + string(rune('a'+i/676%26)) + string(rune('a'+i/26%26)) + string(rune('a'+i%26))
+	}
+	cnt := 0
+	for _, n := range []int{100, 150, 300, 1000} {
+		c := NewClassifier(0.8)
+		mk := func(p string, k int) []string {
+			var ws []string
+			for i := 0; i < k; i++ {
+				ws = append(ws, word(p, i))
+			}
+			return ws
+		}
+		small, large := mk("s", n), mk("l", n+1)
+		c.AddContent("License", "Small", "license.txt", []byte(strings.Join(small, " ")))
+		c.AddContent("License", "Large", "license.txt", []byte(strings.Join(large, " ")))
+		lines := func(ws []string, bad int) string {
+			var sb strings.Builder
+			for i, w := range ws {
+				if i == bad {
+					w = "zyxqv"
+				}
+				sb.WriteString(w)
+				if i%10 == 9 {
+					sb.WriteByte('\n')
+				} else {
+					sb.WriteByte(' ')
+				}
+			}
+			return sb.String() + "\n"
+		}
+		for oi, in := range []string{
+			lines(small, n/2) + "qwrtzp blorfen xkcdq\n" + lines(large, n/3),
+			lines(large, n/3) + "qwrtzp blorfen xkcdq\n" + lines(small, n/2)} {
+			id := fmt.Sprintf("neartie_%d_%d", n, oi)
+			info := vmatchCase(o, c, "", nil, id, []byte(in), false)
+			cnt++
+			if info.panicked {
+				continue
+			}
+			w := voracleC03(c, info)
+			o.verdict("C03", id, w == "", len(info.res.Matches) == 2, "neartie:"+id, map[string]interface{}{"what": w, "results": vshowResults(info.res), "n": n})
+			w2 := voracleC02(c, info)
+			o.verdict("C02", id, w2 == "", len(info.res.Matches) == 2, "neartie:"+id, map[string]interface{}{"what": w2, "n": n})
+		}
+	}
+	return cnt
 }
